@@ -656,7 +656,23 @@ def extract(g, X):
         return str(thr), clist(str(v) for v in X.ordered(X.pattern_set(e.group(1)), [92, 40, 41]))
     g.attempt([("string_hex_from", "N"), ("string_escaped", "list N")], "primitive.rs:PdfString::serialize", serstr)
 
-    add_body = X.fn_body(cont, "add")
+    # operand-reading helpers that are simple wrappers (`fn integer(args) -> Result<i32> { args.next().ok_or(NoOpArg)?.as_integer() }`)
+    # are read where they are called: `integer(&mut args)?` is `args.next().ok_or(PdfError::NoOpArg)?.as_integer()?`.  The
+    # helpers the symbolic reader knows by name (number, point, rect, …) stay calls.
+    KNOWN_HELPERS = ("number", "point", "rect", "rgb", "cmyk", "matrix", "name", "string", "array")
+
+    def expand_wrappers(text):
+        for m in re.finditer(r"\bfn\s+(\w+)\s*\(\s*(\w+)\s*:\s*&mut\s+impl\s+Iterator<\s*Item\s*=\s*Primitive\s*>\s*\)", cont):
+            h, prm = m.group(1), m.group(2)
+            if h in KNOWN_HELPERS:
+                continue
+            hb = X.fn_body(cont, h).strip()
+            if ";" in hb or "{" in hb or not hb.startswith(prm + ".next()"):
+                continue
+            inlined = re.sub(r"\b" + prm + r"\b", "args", hb)
+            text = re.sub(r"\b" + h + r"\(\s*(?:&mut\s+)?args\s*\)\s*\?", lambda _m: inlined + "?", text)
+        return text
+    add_body = expand_wrappers(X.fn_body(cont, "add"))
     add_match = match_body(add_body, r"match\s+op\s*\{", "match op in OpBuilder::add")
     arms = match_arms(add_match)
 
